@@ -65,3 +65,13 @@ def re_group(name, how, s, k):
 
 def ascii_ignore(b):
     return b.decode('ascii', 'ignore')
+
+
+def re_start(name, how, s, k):
+    m = getattr(_pattern(name), how)(s)
+    return -1 if m is None else m.start(k)
+
+
+def re_end(name, how, s, k):
+    m = getattr(_pattern(name), how)(s)
+    return -1 if m is None else m.end(k)
